@@ -203,8 +203,11 @@ def check(rep, tier, seed):
                "private config/defaults passed through the public parameters; config files read "
                "from a temporary directory")
     # 1. design model + negative controls
-    r = _mc(rep, "ConfigMC_quick.cfg" if quick else "ConfigMC.cfg", "ConfigMC design properties")
-    tlc.expect_clean(r, "ConfigMC")
+    r = _mc(rep, "ConfigMC_quick.cfg", "ConfigMC design properties (depth 4, incl. the two-spelling group)")
+    tlc.expect_clean(r, "ConfigMC_quick")
+    if not quick:
+        r5 = _mc(rep, "ConfigMC.cfg", "ConfigMC design properties (depth 5, without the two-spelling group)", timeout=4000)
+        tlc.expect_clean(r5, "ConfigMC")
     for neg, prop in (("ConfigNEG_exit.cfg", "WithRestores"), ("ConfigNEG_upd.cfg", "DefaultsRespectUser"),
                       ("ConfigNEG_graft.cfg", "SiblingsKept")):
         rn = tlc.run_tlc("ConfigMC", neg, spec_dir=SPEC, workers=8, timeout=600)
